@@ -24,6 +24,7 @@ import (
 
 	"verif/harness/dialx"
 	"verif/harness/hx"
+	"verif/harness/smtpx"
 )
 
 func init() { hx.Register("C07", Run) }
@@ -132,11 +133,11 @@ func Run(r *hx.Run, replay []hx.Case) {
 				runCfg(r, pki, hc.ID, hc.Args[0])
 			} else if hc.Kind == "smtpc" {
 				runSMTPLevel(r, pki, hc.ID, hc.Args)
-			} else if hc.Kind == "seq" {
+			} else if strings.HasPrefix(hc.Kind, "seq") {
 				if steps, err := parseSeq(hc.Args); err != nil {
 					r.Fail(hc.ID, "bad-case", err.Error())
 				} else {
-					runSeq(r, pki, hc.ID, steps)
+					runSeqKind(r, pki, hc.ID, hc.Kind, steps)
 				}
 			} else {
 				rest = append(rest, hc)
@@ -161,6 +162,12 @@ func Run(r *hx.Run, replay []hx.Case) {
 			runSMTPLevel(r, pki, r.NewID(), hc.Args)
 		}
 		dseq := seqCases()
+		dkinds := make([]string, len(dseq))
+		for i := range dkinds {
+			dkinds[i] = "seq"
+		}
+		hk, hs := historyCases()
+		dseq, dkinds = append(dseq, hs...), append(dkinds, hk...)
 		r.Notes["dial_sequences"] = len(dseq)
 		// the sequences are independent (client and servers of their own): run them in parallel into private result
 		// sets and merge these in order
@@ -181,7 +188,7 @@ func Run(r *hx.Run, replay []hx.Case) {
 				defer wg.Done()
 				defer func() { <-sem }()
 				lr := hx.NewRun(r.Prop, r.Tier, r.Seed, r.Dir)
-				runSeq(lr, pki, ids[i], dseq[i])
+				runSeqKind(lr, pki, ids[i], dkinds[i], dseq[i])
 				locals[i] = lr
 			}(i)
 		}
@@ -560,6 +567,26 @@ func parseSeq(args []string) ([]dialx.Case, error) {
 }
 
 func runSeq(r *hx.Run, pki *dialx.PKI, id string, steps []dialx.Case) {
+	runSeqKind(r, pki, id, "seq", steps)
+}
+
+// runSeqKind: kind seq[Q][R] -- Q: the policy is changed through SetTLSPortPolicy instead of SetTLSPolicy; R: Reset() is
+// called on the Client between the dials.  A step of kind dialk leaves its connection open for the next dial.
+func runSeqKind(r *hx.Run, pki *dialx.PKI, id, kind string, steps []dialx.Case) {
+	portPolicy, resetBetween := strings.Contains(kind[3:], "Q"), strings.Contains(kind[3:], "R")
+	type kept struct {
+		conn *smtpx.Conn
+		srv  *smtpx.Server
+		n    int
+		step int
+	}
+	var open []kept
+	defer func() {
+		for _, k := range open {
+			k.conn.Close()
+			k.srv.Finish(20 * time.Millisecond)
+		}
+	}()
 	first := steps[0]
 	pol := map[string]mail.TLSPolicy{"M": mail.TLSMandatory, "O": mail.TLSOpportunistic, "N": mail.NoTLS}
 	shared, err := mail.NewClient(first.Host, mail.WithHELO(dialx.HeloName), mail.WithTimeout(3*time.Second),
@@ -573,7 +600,15 @@ func runSeq(r *hx.Run, pki *dialx.PKI, id string, steps []dialx.Case) {
 	for k, c := range steps {
 		c := c
 		build := func(transport ...mail.Option) (*mail.Client, error) {
-			shared.SetTLSPolicy(pol[c.Policy]) // a setter between the dials (no-op when the policy stays)
+			// the configuration in force at THIS dial: setters between the dials (no-ops when nothing changes)
+			if portPolicy {
+				shared.SetTLSPortPolicy(pol[c.Policy])
+			} else {
+				shared.SetTLSPolicy(pol[c.Policy])
+			}
+			shared.SetSMTPAuth(mail.SMTPAuthType(c.Auth))
+			shared.SetUsername(dialx.User)
+			shared.SetPassword(dialx.Pass)
 			for _, o := range transport {
 				if err := o(shared); err != nil {
 					return nil, err
@@ -590,6 +625,29 @@ func runSeq(r *hx.Run, pki *dialx.PKI, id string, steps []dialx.Case) {
 		sid := fmt.Sprintf("%s (dial %d of %d)", id, k+1, len(steps))
 		n0 := len(r.Failures)
 		oracle(r, id, c, o)
+		// the configuration in force at this dial must be applied to a NEW connection: a dial that reports success has
+		// reached this step's server, and nothing more was written on a connection of an earlier dial
+		if len(o.Results) > 0 && o.Results[0] == "ok" && o.Srv == "-" {
+			r.Fail(id, "dial-success-without-new-connection", fmt.Sprintf("policy %s auth %s: DialWithContext reported success but no connection reached the server of this dial (results %s)", c.Policy, c.Auth, strings.Join(o.Results, "/")))
+		}
+		for _, kp := range open {
+			if w := kp.conn.Written(); len(w) > kp.n {
+				more := string(w[kp.n:])
+				if len(more) > 120 {
+					more = more[:120]
+				}
+				r.Fail(id, "dial-reused-earlier-connection", fmt.Sprintf("policy in force %s, auth %s: during this dial and its calls the client wrote on the connection of dial %d: %q", c.Policy, c.Auth, kp.step, more))
+			}
+		}
+		for i := range open {
+			open[i].n = len(open[i].conn.Written())
+		}
+		if o.Conn != nil {
+			if resetBetween {
+				_ = shared.Reset()
+			}
+			open = append(open, kept{o.Conn, o.Server, len(o.Conn.Written()), k + 1})
+		}
 		// auto-discovery is a function of this dial's advertised list and encryption state: on an unencrypted connection
 		// it must end in "no supported mechanism" or in a mechanism that does not carry the password, never in the
 		// refusal of PLAIN / LOGIN (which would mean an earlier, encrypted dial's choice was replayed)
@@ -603,7 +661,7 @@ func runSeq(r *hx.Run, pki *dialx.PKI, id string, steps []dialx.Case) {
 			r.Failures[i].Detail = sid + ": " + r.Failures[i].Detail
 		}
 	}
-	r.Add(hx.Case{ID: id, Kind: "seq", Args: seqArgs(steps)}, strings.Join(obs, " / "), true)
+	r.Add(hx.Case{ID: id, Kind: kind, Args: seqArgs(steps)}, strings.Join(obs, " / "), true)
 	r.Dist["sequence-length:"+fmt.Sprint(len(steps))]++
 	r.Dist["sequence-auth:"+first.Auth]++
 }
@@ -664,4 +722,35 @@ func seqCases() [][]dialx.Case {
 		}
 	}
 	return out
+}
+
+// historyCases: a first dial under a weak configuration whose connection stays open (no Close; optionally a Reset), then a
+// configuration change through a setter (TLS policy via SetTLSPolicy or SetTLSPortPolicy, auth type and credentials), then
+// a second dial with Send / Reset / Close under the new configuration, against servers with STARTTLS working, not
+// advertised, or answered 454
+func historyCases() (kinds []string, out [][]dialx.Case) {
+	list := "PLAIN LOGIN CRAM-MD5"
+	type srv2 struct {
+		adv    bool
+		script []string
+	}
+	for _, host := range []string{dialx.OtherMem, "localhost"} {
+		for _, p1 := range []string{"N", "O"} {
+			for _, auths := range [][2]string{{"NOAUTH", "NOAUTH"}, {"NOAUTH", "CRAM-MD5"}, {"PLAIN-NOENC", "PLAIN"}} {
+				for _, p2 := range []string{"M", "O"} {
+					for _, s2 := range []srv2{{true, nil}, {false, nil}, {true, []string{"ok", "ok", "454"}}} {
+						for _, kind := range []string{"seq", "seqQ", "seqR", "seqQR"} {
+							c1 := dialx.Case{Kind: "dialk", Policy: p1, Auth: auths[0], Custom: "-", Host: host, Mute: -1,
+								Caps: caps(list, false), CapsTLS: caps(list, false), HS: "ok"}
+							c2 := dialx.Case{Kind: "sess", Policy: p2, Auth: auths[1], Custom: "-", Host: host, Mute: -1,
+								Caps: caps(list, s2.adv), CapsTLS: caps(list, false), HS: "ok", Script: s2.script, Msgs: []int{1}}
+							kinds = append(kinds, kind)
+							out = append(out, []dialx.Case{c1, c2})
+						}
+					}
+				}
+			}
+		}
+	}
+	return
 }
